@@ -126,6 +126,33 @@ impl SvgCfg {
     /// derived from `order` (0 = the order of the documentation); the result must not depend on it. shape() calls are
     /// one group and keep their relative order (they are an ordered list of layers by design).
     pub fn apply<B: Builder>(&self, b: &mut B) {
+        self.apply_layers(b, self.layers.len());
+    }
+
+    /// Does the warm-up render happen BEFORE the last shape layer is added? (warm-up margins divisible by 3, at least one
+    /// layer): the renderer instance first renders with the layers it has so far, then gets its last layer.
+    pub fn late_layer(&self) -> bool {
+        matches!(self.warm, Some((m0, _)) if m0 % 3 == 0) && !self.layers.is_empty()
+    }
+
+    /// `apply` for renderers that go through the warm-up afterwards (`svg_string`, `warm_up_image_builder`,
+    /// `warm_up_svg_builder`): with `late_layer()` the last layer is left to the warm-up
+    pub fn apply_for_warm<B: Builder>(&self, b: &mut B) {
+        self.apply_layers(b, if self.late_layer() { self.layers.len() - 1 } else { self.layers.len() });
+    }
+
+    fn add_layer<B: Builder>(&self, b: &mut B, si: usize, col: &Option<ColorSpec>) {
+        match col {
+            None => { b.shape(SHAPES[si]); }
+            Some(ColorSpec::Rgb(x)) if self.order & 64 != 0 => { b.shape_color(SHAPES[si], x.to_vec()); }
+            Some(ColorSpec::Rgba(x)) if self.order & 64 != 0 => { b.shape_color(SHAPES[si], &x[..]); }
+            Some(ColorSpec::Rgb(x)) => { b.shape_color(SHAPES[si], *x); }
+            Some(ColorSpec::Rgba(x)) => { b.shape_color(SHAPES[si], *x); }
+            Some(ColorSpec::Css(x)) => { b.shape_color(SHAPES[si], x.as_str()); }
+        }
+    }
+
+    fn apply_layers<B: Builder>(&self, b: &mut B, n_layers: usize) {
         let mut groups: Vec<usize> = (0..10).collect();
         // deterministic permutation from `order` (Fisher-Yates with a small LCG)
         let mut x = self.order as u64;
@@ -143,15 +170,8 @@ impl SvgCfg {
                     }
                 }
                 1 => {
-                    for (si, col) in &self.layers {
-                        match col {
-                            None => { b.shape(SHAPES[*si]); }
-                            Some(ColorSpec::Rgb(x)) if self.order & 64 != 0 => { b.shape_color(SHAPES[*si], x.to_vec()); }
-                            Some(ColorSpec::Rgba(x)) if self.order & 64 != 0 => { b.shape_color(SHAPES[*si], &x[..]); }
-                            Some(ColorSpec::Rgb(x)) => { b.shape_color(SHAPES[*si], *x); }
-                            Some(ColorSpec::Rgba(x)) => { b.shape_color(SHAPES[*si], *x); }
-                            Some(ColorSpec::Css(x)) => { b.shape_color(SHAPES[*si], x.as_str()); }
-                        }
+                    for (si, col) in self.layers.iter().take(n_layers) {
+                        self.add_layer(b, *si, col);
                     }
                 }
                 2 => {
@@ -316,9 +336,15 @@ impl SvgCfg {
         use fast_qr::convert::svg::SvgBuilder;
         self.run_predecessor(false);
         let mut b = SvgBuilder::default();
-        self.apply(&mut b);
+        self.apply_for_warm(&mut b);
+        self.warm_up_svg_builder(&mut b, q);
+        b.to_str(q)
+    }
+
+    /// warm-up of an SvgBuilder configured with `apply_for_warm`
+    pub fn warm_up_svg_builder(&self, b: &mut fast_qr::convert::svg::SvgBuilder, q: &fast_qr::QRCode) {
         if let Some((m0, v0)) = self.warm {
-            self.warm_perturb(&mut b, m0);
+            self.warm_perturb(b, m0);
             match Self::warm_qr(v0) {
                 Some(q0) => {
                     let _ = b.to_str(&q0);
@@ -327,12 +353,15 @@ impl SvgCfg {
                     let _ = b.to_str(q);
                 }
             }
-            self.warm_restore(&mut b, m0);
+            self.warm_restore(b, m0);
+            if self.late_layer() {
+                let (si, col) = self.layers.last().unwrap();
+                self.add_layer(b, *si, col);
+            }
         }
-        b.to_str(q)
     }
 
-    /// the same for the raster builder (the caller adds the fit request before and renders after)
+    /// the same for a raster builder configured with `apply_for_warm` (the caller adds the fit request before and renders after)
     pub fn warm_up_image_builder(&self, ib: &mut fast_qr::convert::image::ImageBuilder, q: &fast_qr::QRCode) {
         self.run_predecessor(true);
         if let Some((m0, v0)) = self.warm {
@@ -346,6 +375,10 @@ impl SvgCfg {
                 }
             }
             self.warm_restore(ib, m0);
+            if self.late_layer() {
+                let (si, col) = self.layers.last().unwrap();
+                self.add_layer(ib, *si, col);
+            }
         }
     }
 
